@@ -365,8 +365,13 @@ func mapsEqual(x, y any) (err error) {
 	}
 
 	for _, key := range xrv.MapKeys() {
+		yv := yrv.MapIndex(key)
+		if !yv.IsValid() {
+			err = errorf("Map key mismatch")
+			return
+		}
 		xval := xrv.MapIndex(key).Interface()
-		yval := yrv.MapIndex(key).Interface()
+		yval := yv.Interface()
 		if err = valuesEqual(xval, yval); err != nil {
 			return
 		}
